@@ -18,6 +18,8 @@ LEVEL_NOTE = ("Exhaustive only within those bounds and alphabets. safe_strncat w
 TECHNIQUE = "TLA+ reference operators + TLC exhaustive argument enumeration replayed on the implementation"
 DESIGN_REF = "DESIGN.md section 6 C13"
 ACTIONS = ["EvalCopy", "EvalSubstr", "EvalInPlace"]
+SAMPLE_ARGS = [("copy", [4, [97, 90, 97, 97], [90, 0, 126, 126]]), ("copy", [3, [97], [90, 97, 90]]), ("substr", [[97, 98, 99, 100, 101], -3, 2]),
+               ("substr", [[97, 98, 99], 1, -5]), ("inplace", [[32, 97, 9, 233, 32]]), ("inplace", [[9, 1, 32, 32, 90]])]
 
 
 def harness(ctx):
@@ -85,7 +87,7 @@ def run(ctx):
         a = r["args"]
         if (r["op"] == "copy" and len(a[1]) > 0) or (r["op"] == "substr" and len(a[0]) > 0) or (r["op"] == "inplace" and len(a[0]) > 0):
             nontriv[0] += 1
-        if n[0] in (3, 4000, 9000, 20000, 30500, 60000):
+        if (r["op"], a) in SAMPLE_ARGS:       # chosen by content, so the evidence does not depend on TLC's emission order
             ctx.sample({"op": r["op"], "args": a, "expected": r["exp"]})
     try:
         res = x_c12.tlc_cases(ctx, "MC_StrHelpers.tla", cfg, ACTIONS, on_case)
@@ -93,6 +95,8 @@ def run(ctx):
         tot = cs.close()
     if res.ok and tot["scripts"] != res.edges:
         raise Broken("emitted %d cases, replayed %d" % (res.edges, tot["scripts"]))
+    import json
+    ctx.cov["samples"].sort(key=lambda s: json.dumps(s, sort_keys=True))
     ctx.add("distinct_nontrivial", nontriv[0])
     ctx.cov["exhaustive"] = True
     ctx.cov["rule"] = ("every argument tuple of the bounded universe is evaluated by TLC (reference + laws) and executed on the implementation; "
